@@ -42,7 +42,9 @@ func tagSSIParser(doc *Parser, start *Token, arguments *Parser) (INodeTag, *Erro
 		} else {
 			// plaintext, obtained through the set's loaders like every other template
 			var buf []byte
-			_, _, fd, err := doc.template.set.resolveTemplate(doc.template, fileToken.Val)
+			// (resolved exactly like FromFile resolves the name for 'ssi ... parsed')
+			_, _, fd, err := doc.template.set.resolveTemplate(nil,
+				doc.template.set.resolveFilename(doc.template, fileToken.Val))
 			if err == nil {
 				buf, err = io.ReadAll(fd)
 			}
